@@ -1,5 +1,6 @@
 import Insim.Lemmas.Files
 import Insim.Model.FilesEnv
+import Insim.Props.C06
 /-
 C17 — PTH and SMX files round-trip and their parsers withstand any input.
 
@@ -134,5 +135,18 @@ example : (match encSmx genLeafs smx1 with
     | .ok b => decSmx genLeafs b == .ok (smx1, []) &&
         (List.range b.length).all (fun k => match decSmx genLeafs (b.take k) with | .err _ => true | _ => false)
     | _ => false) = true := by decide +kernel
+
+/-- **the sink does not matter**: a file is serialised field by field, each field handed to the sink with `write_all`
+(`Conn.writeAll`: keep offering the rest until it is gone). On any sink — however few bytes it takes per call, however often it is
+not ready — when every write succeeds the sink holds exactly the in-memory image; the harness's `smx.wdrib / pth.wdrib` cases run
+the real writers against such sinks -/
+theorem sink_independent (fields : List Bytes) (img : Bytes) (hf : fields.flatten = img) (ws : List Conn.WEv) (out : Bytes)
+    (h : Conn.writeMany fields ws = (out, true)) : out = img :=
+  hf ▸ Props.C06.write_many_ok fields ws out h
+
+/-- … and whatever happens it holds a prefix of the image, never bytes out of place -/
+theorem sink_prefix (fields : List Bytes) (img : Bytes) (hf : fields.flatten = img) (ws : List Conn.WEv) :
+    (Conn.writeMany fields ws).1 <+: img :=
+  hf ▸ Props.C06.write_many_prefix fields ws
 
 end Insim.Props.C17
